@@ -58,8 +58,8 @@ def gen(rng, tier):
                 idk = rng.random()
                 id_ = None if idk < 0.3 else rng.choice(
                     [0, 0, 1, 2, 7, 99, 2**31, 10**20, rng.randrange(1000)])
-                ops.append(['sev', ns, rng.choice(EVENTS + ['other']), extra,
-                            id_, 'T%d' % tok])
+                ops.append(['sev', ns, rng.choice(EVENTS + ['other', '*']),
+                            extra, id_, 'T%d' % tok])
             elif k < 0.62:
                 ops.append(['emit_cb', ns, 'G%d' % tok])
             elif k < 0.70:
